@@ -38,6 +38,10 @@ theorem toByteSize_tie (n : Nat) (h : n < 4294967296) :
         simp [h8, e1, e2, e3]
     · simp [h8]
 
+/-- the hypothesis is met at the boundary where the `uint32` addition wraps, and both sides give the same byte count there -/
+example : (4294967295 : Nat) < 4294967296 ∧ GenFn.state_toByteSize 4294967295 = 0 ∧ St.toByteSize 4294967295 = 0 := by decide
+example : GenFn.state_toByteSize 13 = 2 ∧ GenFn.state_IsWriteableFlag 5 = false ∧ GenFn.state_IsWriteableFlag 6 = true := by decide
+
 end Vise.Tie
 
 #print axioms Vise.Tie.isWriteableFlag_tie
